@@ -38,7 +38,7 @@ m = {
     },
     "engines": [
         {"name": "compass-static", "path": "/verif/engine", "serves_properties": [c["property_id"] for c in checks],
-         "kind_free_text": "static analysis: rustc MIR/type fact extraction (engine/compassfacts, rustc_private) + repository-specific rules over resolved callees (engine/rules): value-flow terms, dominance/must-pass-through, trace-partitioned decision tables, exact rational evaluation of arithmetic, who-may-call and type inventories. Nothing is executed and no solver is used."},
+         "kind_free_text": "static analysis: rustc MIR/type fact extraction (engine/compassfacts, rustc_private) + repository-specific rules over resolved callees (engine/rules): value-flow terms, dominance/must-pass-through, trace-partitioned decision tables, exact rational evaluation of arithmetic, one-iteration loop transfer functions, unit typestate, who-may-call / interior-mutability / panic-site inventories; thorough tier additionally: the same rules on the release-profile MIR, rustdoc compile_fail witnesses with error codes (engine/witness), and a self-test that re-analyses seeded variants of the current tree in a scratch copy. routee-compass is never executed to decide a property and no solver is used."},
     ],
     "checks": checks,
     "notes": "Every property is claimed only through the structural clauses listed in DESIGN.md section 4/5; the checks decide those clauses (necessary conditions visible in the code on every path), not the runtime behaviour as a whole. Genuine defects found are in known_findings.json (findings + fixed). Seeded breaking changes used to test the checks are under seeded/.",
